@@ -17,7 +17,8 @@ RULE = (
     "fork() (sharing its handler) with one more handler, nested in any order; W5 f>a, the overlay on f>a and a "
     "probe on the generator function t, with {start, advance, close, drop} of one generator of t as extra "
     "operations (what the generator body itself delivers is not asserted, only the state and every call); "
-    "each history is replayed on a fresh world through the real API with a boring model (set of "
+    "W2 and W3 also have a call inside a block shielded by no_overlay() (nothing is delivered) and an "
+    "exception leaving such a block as operations; each history is replayed on a fresh world through the real API with a boring model (set of "
     "active probes => expected per-probe streams) in lock-step; after every step: every active probe got "
     "exactly the expected new events, inactive probes none, instrumentation counters equal the model's, "
     "and at quiescence f and g run their original code objects, no handler collection is installed, "
@@ -149,6 +150,10 @@ class System:
         ops += [("call", "f"), ("call", "g")]
         if self.wname == "W3":
             ops.append(("call", "h"))
+        if self.wname in ("W2", "W3"):
+            # a block shielded from every overlay (ptera.overlay.no_overlay): a call inside it, and
+            # an exception leaving it
+            ops += [("shield", "call"), ("shield", "raise")]
         if self.wname == "W5":
             ops += [("gen", "start")] if gen == "none" else [("gen", "next"), ("gen", "close"), ("gen", "drop")]
         return ops
@@ -165,6 +170,10 @@ class System:
             return (act, wstack[:-1], calls, gen), "ok"
         if op[0] == "act_bad":
             return model, "refused"
+        if op[0] == "shield":
+            if op[1] == "call":
+                return (act, wstack, calls + 1, gen), ("result", (calls + 2) * 2, ())
+            return model, "ok"
         if op[0] == "gen":
             # what the generator's own body delivers, and to whom, is C09's subject: not asserted here
             gen = {"start": 1, "next": (gen + 1 if gen != "none" and gen < 3 else "none"), "close": "none", "drop": "none"}[op[1]]
@@ -248,6 +257,23 @@ class System:
                 w.probes[op[1]] = p
                 w.depth[op[1]] = w.depth.get(op[1], 0) + 1
                 p.__enter__()
+                return "ok"
+            if op[0] == "shield":
+                from ptera.overlay import no_overlay
+
+                for s in w.streams.values():
+                    del s[:]
+                if op[1] == "call":
+                    w.calls += 1
+                    with no_overlay():
+                        r = w.f(w.calls)
+                    got = {s: list(e) for s, e in w.streams.items() if e}
+                    return ("result", r, tuple(sorted((s, tuple(map(_canon, e))) for s, e in got.items())))
+                try:
+                    with no_overlay():
+                        raise KeyError("leaving the shielded block by an exception")
+                except KeyError:
+                    pass
                 return "ok"
             if op[0] == "gen":
                 import gc
